@@ -314,6 +314,11 @@ func runC15(rc *RunCtx) {
 				}
 			}
 			rc.Logf("step %d h=%d acc%d proves %d files once and goes silent", s, c.Height, i, n)
+			if rc.Chance(0.5) {
+				// no blocks pass: the provider keeps holding its proofs while the history goes on (and may shut down so)
+				rc.Count("providers_holding_proofs", 1)
+				continue
+			}
 			rc.Count("providers_that_let_three_contracts_burn", 1)
 			for b := 0; b < 14; b++ {
 				if _, err := c.NextBlock(dur(6)); err != nil {
@@ -331,7 +336,10 @@ func runC15(rc *RunCtx) {
 			pre := c.Snapshot()
 			have := pre[a].AmountOf("ujkl")
 			was := isProv[a]
-			r := c.DeliverAs(i, &storagetypes.MsgInitProvider{Creator: spell(a), Ip: fmt.Sprintf("https://p%d.example.com", i), Keybase: "kb", TotalSpace: 1_000_000_000_000})
+			// the offered space is the registrant's own business (0 and negative values pass stateless validation too): the
+			// collateral locked does not depend on it
+			space := rc.Pick([]int64{1_000_000_000_000, 1_000_000_000_000, 1_000_000_000_000, 1, 0, -1, -1_000_000})
+			r := c.DeliverAs(i, &storagetypes.MsgInitProvider{Creator: spell(a), Ip: fmt.Sprintf("https://p%d.example.com", i), Keybase: "kb", TotalSpace: space})
 			d := chain.Diff(pre, c.Snapshot())
 			after := fmt.Sprintf("step %d h=%d InitProvider by acc%d (price %d, balance %s, provider before=%v) -> code %d", s, c.Height, i, price, have, was, r.Code)
 			rc.Logf("%s %.80q", after, r.Log)
